@@ -1,0 +1,12 @@
+//! Verification hooks (C04): the `encoding` arguments of `fit_files`, for a caller that does not
+//! depend on the `encoding` crate itself. Add-only, compiled with `--cfg linfa_verif`.
+
+/// `encoding::all::UTF_8`
+pub fn utf8() -> encoding::types::EncodingRef {
+    encoding::all::UTF_8
+}
+
+/// `encoding::DecoderTrap::Strict`
+pub fn strict() -> encoding::DecoderTrap {
+    encoding::DecoderTrap::Strict
+}
